@@ -235,6 +235,32 @@ pub struct PreferenceManager {
 }
 
 
+#[cfg(mathcat_verif)]
+impl PreferenceManager {
+    /// Read-only projection of the preference manager (verification hook).
+    pub fn verif_json(&self) -> String {
+        use crate::verif::json_str;
+        fn map_json(prefs: &Preferences) -> String {
+            let mut pref_vec: Vec<(&String, &Yaml)> = prefs.prefs.iter().collect();
+            pref_vec.sort();
+            let items = pref_vec.iter().map(|(name, value)| {
+                let kind = match value {
+                    Yaml::String(_) => "string", Yaml::Boolean(_) => "boolean", Yaml::Real(_) => "real",
+                    Yaml::Integer(_) => "integer", _ => "other",
+                };
+                format!("{}:[{},{}]", json_str(name), json_str(kind), json_str(&yaml_to_string(value, 0)))
+            }).collect::<Vec<String>>();
+            return format!("{{{}}}", items.join(","));
+        }
+        let path = |p: &PathBuf| json_str(&p.to_string_lossy());
+        return format!("{{\"error\":{},\"rules_dir\":{},\"user\":{},\"api\":{},\"files\":{{\"intent\":{},\"speech\":{},\"overview\":{},\"navigation\":{},\"speech_unicode\":{},\"speech_unicode_full\":{},\"speech_defs\":{},\"braille\":{},\"braille_unicode\":{},\"braille_unicode_full\":{},\"braille_defs\":{}}}}}",
+            json_str(&self.error), path(&self.rules_dir), map_json(&self.user_prefs), map_json(&self.api_prefs),
+            path(&self.intent), path(&self.speech), path(&self.overview), path(&self.navigation),
+            path(&self.speech_unicode), path(&self.speech_unicode_full), path(&self.speech_defs),
+            path(&self.braille), path(&self.braille_unicode), path(&self.braille_unicode_full), path(&self.braille_defs));
+    }
+}
+
 impl fmt::Display for PreferenceManager {
     fn fmt(&self, f: &mut fmt::Formatter) -> fmt::Result {
         writeln!(f, "PreferenceManager:")?;
